@@ -607,6 +607,15 @@ call_class(
     PyObject *result;
     PyObject *args;
 
+    if (trait->handler == NULL) {
+        PyErr_Format(
+            TraitError,
+            "Cannot create the default value of the '%.400S' attribute of a"
+            " '%.50s' object: the trait has no handler.",
+            name, Py_TYPE(obj)->tp_name);
+        return NULL;
+    }
+
     args = PyTuple_Pack(4, trait->handler, (PyObject *)obj, name, value);
     if (args == NULL) {
         return NULL;
